@@ -8,6 +8,7 @@
 // std
 #include <algorithm>  // std::min()/std::max() on Windows
 #include <cmath>
+#include <type_traits>
 
 // Include vector intrinsics
 #ifndef RKCOMMON_NO_SIMD
@@ -107,6 +108,16 @@ namespace rkcommon {
     }
 
     __forceinline float madd(const float a, const float b, const float c)
+    {
+      return a * b + c;
+    }
+
+    // double variant; a constrained template so that calls with any other
+    // (mix of) argument types keep resolving to the float overload as before
+    template <typename T>
+    __forceinline
+        typename std::enable_if<std::is_same<T, double>::value, T>::type
+        madd(const T a, const T b, const T c)
     {
       return a * b + c;
     }
